@@ -502,7 +502,19 @@ def mk_resolve_aliases(N, styles, fixed=None, req="all"):
 
     def run(e, nodes, rq):
         new = call(nodes, rq)
-        return check_values(e, new, nodes, rq, "resolve_aliases")
+        obs = check_values(e, new, nodes, rq, "resolve_aliases")
+        # the result must be a well-formed task-spec graph: every node is stored under its own key ...
+        for k, v in new.items():
+            if isinstance(v, GraphNode):
+                e.check(v.key == k, f"resolve_aliases: the node stored under {k!r} says its key is {v.key!r}")
+        # ... so that a following optimisation still preserves the requested values
+        keys = [KEYS[j] for j in rq]
+        try:
+            fused = TS.fuse_linear_task_spec(dict(new), keys)
+        except Exception as ex:
+            raise Violation(f"fuse_linear_task_spec fails on the output of resolve_aliases: {type(ex).__name__}: {ex}")
+        check_values(e, fused, nodes, rq, "resolve_aliases + fuse_linear_task_spec")
+        return obs
 
     return _with_e2e(f"resolve_aliases[{_tag(N, styles, fixed)}]", setup, run, lambda *a: (call(*a), a[0], a[1]))
 
